@@ -187,3 +187,52 @@ func boostedWorld(t *rapid.T, o gen.Opts) gen.World {
 	v, l := gen.Tuples(t, mo, o)
 	return gen.World{Model: mo, Tuples: v, Left: l}
 }
+
+// setAlgebraWorld: a third family — one object type whose leaf relations take
+// users and the typed wildcard, and three derived relations that are random
+// nested combinations (depth <= 3) of union / intersection / exclusion over the
+// leaves and the earlier derived relations. This is where ListUsers carries
+// exclusion lists of wildcard results through nested operators.
+func setAlgebraWorld(t *rapid.T, o gen.Opts) gen.World {
+	leaf := []m.Restriction{{Type: "user"}, {Type: "user", Wildcard: true}}
+	td := m.TypeDef{Name: "doc"}
+	nLeaves := rapid.IntRange(3, 4).Draw(t, "saLeaves")
+	var names []string
+	for i := 0; i < nLeaves; i++ {
+		n := fmt.Sprintf("l%d", i)
+		names = append(names, n)
+		td.Relations = append(td.Relations, m.Relation{Name: n, Rewrite: &m.Rewrite{Kind: m.This}, Restr: leaf})
+	}
+	var tree func(depth int) *m.Rewrite
+	tree = func(depth int) *m.Rewrite {
+		if depth == 0 || rapid.IntRange(0, 3).Draw(t, "saLeaf") == 0 {
+			return &m.Rewrite{Kind: m.Computed, Rel: names[rapid.IntRange(0, len(names)-1).Draw(t, "saRef")]}
+		}
+		op := []string{m.Union, m.Intersection, m.Intersection, m.Difference, m.Difference}[rapid.IntRange(0, 4).Draw(t, "saOp")]
+		return &m.Rewrite{Kind: op, Children: []*m.Rewrite{tree(depth - 1), tree(depth - 1)}}
+	}
+	for i := 0; i < 3; i++ {
+		rw := tree(rapid.IntRange(1, 3).Draw(t, "saDepth"))
+		if rw.Kind == m.Computed { // keep it a set operation
+			rw = &m.Rewrite{Kind: m.Intersection, Children: []*m.Rewrite{rw, tree(1)}}
+		}
+		n := fmt.Sprintf("e%d", i)
+		td.Relations = append(td.Relations, m.Relation{Name: n, Rewrite: rw})
+		names = append(names, n)
+	}
+	mo := &m.Model{Types: []m.TypeDef{{Name: "user"}, td}}
+	var ts []m.Tuple
+	for d := 0; d < 2; d++ {
+		for i := 0; i < nLeaves; i++ {
+			for u := 0; u < 3; u++ {
+				if chance(t, "saGrant", 40) {
+					ts = append(ts, m.Tuple{Object: fmt.Sprintf("doc:%d", d), Relation: fmt.Sprintf("l%d", i), User: fmt.Sprintf("user:%d", u)})
+				}
+			}
+			if chance(t, "saWild", 35) {
+				ts = append(ts, m.Tuple{Object: fmt.Sprintf("doc:%d", d), Relation: fmt.Sprintf("l%d", i), User: "user:*"})
+			}
+		}
+	}
+	return gen.World{Model: mo, Tuples: ts}
+}
